@@ -390,6 +390,25 @@ static std::string handle(const std::vector<std::string>& a) {
     size_t used = rd.lowest == ~uintptr_t(0) ? 0 : (top > rd.lowest ? size_t(top - rd.lowest) : 0);
     return std::string(codeName(err)) + " stack=" + std::to_string(used) + " nesting=" + std::to_string(doc.nesting());
   }
+  // RTB <fmt 0|2> <dump> : the common idiom  n = measure(doc); buf = malloc(n); serialize(doc, buf, n); deserialize(doc2, buf, n)
+  // with an exactly sized heap block (and once more with n+1 bytes)
+  if (a[0] == "RTB" && a.size() == 3) {
+    int fmt = std::stoi(a[1]);
+    JsonDocument doc;
+    DumpParser p(a[2]);
+    if (!p.build(doc.to<JsonVariant>())) return "bad-dump";
+    size_t n = measure(fmt, doc.as<JsonVariantConst>());
+    std::string r;
+    for (size_t extra = 0; extra < 2; extra++) {
+      char* buf = new char[n + extra ? n + extra : 1];
+      size_t w = ser_buf(fmt, doc.as<JsonVariantConst>(), buf, n + extra);
+      JsonDocument back;
+      DeserializationError e = fmt == 2 ? deserializeMsgPack(back, (const char*)buf, n) : deserializeJson(back, (const char*)buf, n);
+      r += std::string(codeName(e)) + " " + std::to_string(w) + "/" + std::to_string(n) + " " + dump(back.as<JsonVariantConst>()) + " ";
+      delete[] buf;
+    }
+    return r;
+  }
   // MR <hex> : deserializeMsgPack then serializeMsgPack and serializeJson of the result
   if (a[0] == "MR" && a.size() == 2) {
     std::string input = unhex(a[1]);
